@@ -1,12 +1,1567 @@
-//! C19 - not implemented yet
-use crate::common::Report;
+//! C19 - joins implement the documented relational semantics, also when compiled.
+//!
+//! Part 1 (plaintext): every pair of small tables (rows: null with zero data / null with junk data /
+//! live with a key from a 4-element domain, live keys unique) x 4 join types x 6 schemas (1 and 2 key
+//! columns; u8, i32[2] and bit[2] key columns; equal / differing / crossed header names; null column first
+//! or last) is evaluated with the real evaluator on a one-Join graph and compared - whole result table
+//! including the null column, and the result type - with a reference join written from the doc comments of
+//! `Graph::join` / `Graph::join_with_column_masks` over a plain column model (no code shared with
+//! evaluators/join.rs). The masked variant enumerates every mask pattern on key and payload columns for
+//! tables of <= 2 rows.
+//! Part 2 (compiled): the same graph compiled with the real MPC compiler for six owner configurations
+//! ((P0,P1), (P1,P1), (shared,P2), (public,P0), (P0,public), first table assembled from private columns and
+//! one public column), one compilation per (join type, table sizes, owner configuration), then every table
+//! pair over a reduced row alphabet is run in global mode and in three-party mode (junk alphabet zeros /
+//! ones); the output party's table must equal the reference (= plaintext, which is re-checked on the very
+//! same graph). The only allowed abort is the cuckoo-hashing failure of the party that hashes the real
+//! OPRF values (party 1); such aborts are counted.
+//!
+//! Work is partitioned into tasks (one graph / one compilation each) that run on the rayon pool; every task
+//! returns its counters and first violation per signature, merged in enumeration order.
+//!
+//! Development knobs (not used by the suite): VERIF_C19_DEBUG=1 prints violations and timings to stderr,
+//! VERIF_C19_PART=plain|compiled, VERIF_C19_SCHEMA=<id> and VERIF_C19_MASKED=1 restrict the run (which then ends
+//! as vacuous).
+use crate::common::{catch, hash_str, stable_msg, Report, SplitMix};
+use crate::exec::{new_eval, Plan, RealRandomness};
+use crate::mpcx::{self, Owner};
+use crate::vals;
+use ciphercore_base::data_types::{
+    array_type, named_tuple_type, tuple_type, ScalarType, Type, BIT, INT32, INT64, UINT8,
+};
+use ciphercore_base::data_values::Value;
+use ciphercore_base::evaluators::Evaluator;
+use ciphercore_base::graphs::{create_context, Context, JoinType};
+use ciphercore_base::inline::inline_ops::InlineMode;
+use ciphercore_base::type_inference::NULL_HEADER;
+use rayon::prelude::*;
+use serde_json::{json, Value as J};
+use std::collections::{BTreeMap, HashMap};
 
-pub fn run(_r: &Report) -> i32 {
-    println!("MACHINERY-ERROR property=C19 check not implemented");
-    2
+// ---------------------------------------------------------------------------------------------
+// table model
+// ---------------------------------------------------------------------------------------------
+
+#[derive(Clone, Debug, PartialEq)]
+struct Col {
+    name: String,
+    st: ScalarType,
+    /// shape of one row (empty = one scalar per row)
+    row: Vec<u64>,
+    /// elements per row
+    eper: usize,
+    /// per-row mask bit (masked variant, never for the null column)
+    mask: Option<Vec<u8>>,
+    /// n * eper residues
+    data: Vec<u128>,
 }
 
-pub fn replay(_r: &Report, _rec: &serde_json::Value) -> i32 {
-    println!("MACHINERY-ERROR property=C19 replay not implemented");
-    2
+#[derive(Clone, Debug, PartialEq)]
+struct Table {
+    n: usize,
+    /// all columns in header order, including the null column (BIT, one element per row, no mask)
+    cols: Vec<Col>,
+}
+
+impl Table {
+    fn null_idx(&self) -> usize {
+        self.cols.iter().position(|c| c.name == NULL_HEADER).expect("table without null column")
+    }
+    fn null(&self, i: usize) -> u8 {
+        self.cols[self.null_idx()].data[i] as u8
+    }
+    fn col_idx(&self, name: &str) -> usize {
+        self.cols.iter().position(|c| c.name == name).expect("no such column")
+    }
+    /// (mask bit, data) of an entry as the documentation sees it: an entry whose mask bit is zero has no content
+    fn entry(&self, c: usize, i: usize) -> (u8, Vec<u128>) {
+        let col = &self.cols[c];
+        if let Some(m) = &col.mask {
+            if m[i] == 0 {
+                return (0, vec![0; col.eper]);
+            }
+        }
+        (1, col.data[i * col.eper..(i + 1) * col.eper].to_vec())
+    }
+    /// the row key if the row takes part in matching: live and every key entry has content
+    fn row_key(&self, i: usize, key_cols: &[usize]) -> Option<Vec<u128>> {
+        if self.null(i) == 0 {
+            return None;
+        }
+        let mut k = vec![];
+        for c in key_cols {
+            let col = &self.cols[*c];
+            if let Some(m) = &col.mask {
+                if m[i] == 0 {
+                    return None;
+                }
+            }
+            k.extend_from_slice(&col.data[i * col.eper..(i + 1) * col.eper]);
+        }
+        Some(k)
+    }
+    fn find(&self, key: &[u128], key_cols: &[usize]) -> Option<usize> {
+        (0..self.n).find(|j| self.row_key(*j, key_cols).as_deref() == Some(key))
+    }
+    fn col_type(&self, c: usize) -> Type {
+        let col = &self.cols[c];
+        let mut shape = vec![self.n as u64];
+        shape.extend_from_slice(&col.row);
+        let dt = array_type(shape, col.st);
+        match &col.mask {
+            Some(_) => tuple_type(vec![array_type(vec![self.n as u64], BIT), dt]),
+            None => dt,
+        }
+    }
+    fn ty(&self) -> Type {
+        named_tuple_type((0..self.cols.len()).map(|c| (self.cols[c].name.clone(), self.col_type(c))).collect())
+    }
+    fn col_value(&self, c: usize) -> Value {
+        let col = &self.cols[c];
+        let d = vals::arr_value(&col.data, &col.st);
+        match &col.mask {
+            Some(m) => {
+                let mv: Vec<u128> = m.iter().map(|x| *x as u128).collect();
+                Value::from_vector(vec![vals::arr_value(&mv, &BIT), d])
+            }
+            None => d,
+        }
+    }
+    fn value(&self) -> Value {
+        Value::from_vector((0..self.cols.len()).map(|c| self.col_value(c)).collect())
+    }
+    fn show(&self) -> J {
+        let mut m = serde_json::Map::new();
+        for c in self.cols.iter() {
+            let name = if c.name == NULL_HEADER { "<null>".to_string() } else { c.name.clone() };
+            let rows: Vec<J> = (0..self.n)
+                .map(|i| {
+                    let d: Vec<String> = c.data[i * c.eper..(i + 1) * c.eper]
+                        .iter()
+                        .map(|x| vals::to_signed(*x, &c.st).to_string())
+                        .collect();
+                    match &c.mask {
+                        Some(mk) => json!(format!("m{}:{}", mk[i], d.join(","))),
+                        None => json!(d.join(",")),
+                    }
+                })
+                .collect();
+            m.insert(name, J::Array(rows));
+        }
+        J::Object(m)
+    }
+}
+
+// ---------------------------------------------------------------------------------------------
+// reference join, written from the doc comments of Graph::join / Graph::join_with_column_masks
+// ---------------------------------------------------------------------------------------------
+
+fn jt_name(jt: JoinType) -> &'static str {
+    match jt {
+        JoinType::Inner => "Inner",
+        JoinType::Left => "Left",
+        JoinType::Union => "Union",
+        JoinType::Full => "Full",
+    }
+}
+const JTS: [JoinType; 4] = [JoinType::Inner, JoinType::Left, JoinType::Union, JoinType::Full];
+fn jt_of(name: &str) -> JoinType {
+    *JTS.iter().find(|j| jt_name(**j) == name).expect("join type")
+}
+
+/// keys: (header in a, header in b)
+fn ref_join(a: &Table, b: &Table, jt: JoinType, keys: &[(String, String)]) -> Table {
+    let ka: Vec<usize> = keys.iter().map(|k| a.col_idx(&k.0)).collect();
+    let kb: Vec<usize> = keys.iter().map(|k| b.col_idx(&k.1)).collect();
+    let a_null = a.null_idx();
+    // result columns: all columns of a in their order, then the columns of b that are neither key columns of b
+    // nor named like a column of a (the null column is named alike in both)
+    #[derive(Clone, Copy)]
+    enum Src {
+        Null,
+        AKey(usize, usize), // column of a, corresponding key column of b
+        APay(usize),
+        BPay(usize),
+    }
+    let mut src = vec![];
+    let mut cols: Vec<Col> = vec![];
+    let n_res = match jt {
+        JoinType::Inner | JoinType::Left => a.n,
+        JoinType::Union | JoinType::Full => a.n + b.n,
+    };
+    for (c, col) in a.cols.iter().enumerate() {
+        if c == a_null {
+            src.push(Src::Null);
+        } else if let Some(p) = ka.iter().position(|x| *x == c) {
+            src.push(Src::AKey(c, kb[p]));
+        } else {
+            src.push(Src::APay(c));
+        }
+        cols.push(Col { mask: col.mask.as_ref().map(|_| vec![]), data: vec![], ..col.clone() });
+    }
+    for (c, col) in b.cols.iter().enumerate() {
+        if kb.contains(&c) || a.cols.iter().any(|x| x.name == col.name) {
+            continue;
+        }
+        src.push(Src::BPay(c));
+        cols.push(Col { mask: col.mask.as_ref().map(|_| vec![]), data: vec![], ..col.clone() });
+    }
+    let push = |cols: &mut Vec<Col>, r: usize, e: (u8, Vec<u128>)| {
+        if let Some(m) = cols[r].mask.as_mut() {
+            m.push(e.0);
+        }
+        cols[r].data.extend(e.1);
+    };
+    let zero = |cols: &Vec<Col>, r: usize| -> (u8, Vec<u128>) { (0, vec![0; cols[r].eper]) };
+    // one output row: which rows of a / b feed it (None = nothing: zeros)
+    // null bit is 1 iff at least one of them is given
+    let emit = |cols: &mut Vec<Col>, ra: Option<usize>, rb: Option<usize>, keys_from_b: bool| {
+        for r in 0..src.len() {
+            let e = match src[r] {
+                Src::Null => (1, vec![(ra.is_some() || rb.is_some()) as u128]),
+                Src::AKey(ca, cb) => {
+                    if keys_from_b {
+                        match rb {
+                            Some(j) => b.entry(cb, j),
+                            None => zero(cols, r),
+                        }
+                    } else {
+                        match ra {
+                            Some(i) => a.entry(ca, i),
+                            None => zero(cols, r),
+                        }
+                    }
+                }
+                Src::APay(ca) => match ra {
+                    Some(i) => a.entry(ca, i),
+                    None => zero(cols, r),
+                },
+                Src::BPay(cb) => match rb {
+                    Some(j) => b.entry(cb, j),
+                    None => zero(cols, r),
+                },
+            };
+            push(cols, r, e);
+        }
+    };
+    let match_in_b = |i: usize| -> Option<usize> { a.row_key(i, &ka).and_then(|k| b.find(&k, &kb)) };
+    let match_in_a = |j: usize| -> Option<usize> { b.row_key(j, &kb).and_then(|k| a.find(&k, &ka)) };
+    match jt {
+        JoinType::Inner => {
+            // rows where input tuples have matching row keys, in the slots of the first table
+            for i in 0..a.n {
+                match match_in_b(i) {
+                    Some(j) => emit(&mut cols, Some(i), Some(j), false),
+                    None => emit(&mut cols, None, None, false),
+                }
+            }
+        }
+        JoinType::Left => {
+            // all the rows of the first table merged with the rows of the second having the same row key
+            for i in 0..a.n {
+                if a.null(i) == 0 {
+                    emit(&mut cols, None, None, false);
+                } else {
+                    emit(&mut cols, Some(i), match_in_b(i), false);
+                }
+            }
+        }
+        JoinType::Union | JoinType::Full => {
+            // 1. the rows of the first table that don't belong to the inner join
+            for i in 0..a.n {
+                if a.null(i) == 0 || match_in_b(i).is_some() {
+                    emit(&mut cols, None, None, false);
+                } else {
+                    emit(&mut cols, Some(i), None, false);
+                }
+            }
+            // 2. all the rows of the second table (Full: merged with the matching row of the first one)
+            for j in 0..b.n {
+                if b.null(j) == 0 {
+                    emit(&mut cols, None, None, true);
+                } else if jt == JoinType::Full {
+                    emit(&mut cols, match_in_a(j), Some(j), true);
+                } else {
+                    emit(&mut cols, None, Some(j), true);
+                }
+            }
+        }
+    }
+    Table { n: n_res, cols }
+}
+
+// ---------------------------------------------------------------------------------------------
+// schemas and table enumeration
+// ---------------------------------------------------------------------------------------------
+
+#[derive(Clone, Copy, PartialEq, Debug)]
+enum Role {
+    Null,
+    Key(usize),
+    Pay,
+}
+
+#[derive(Clone, Debug)]
+struct ColSpec {
+    name: String,
+    st: ScalarType,
+    row: Vec<u64>,
+    role: Role,
+}
+
+#[derive(Clone, Debug)]
+struct Schema {
+    id: &'static str,
+    a: Vec<ColSpec>,
+    b: Vec<ColSpec>,
+    /// key pairs in key-column order
+    keys: Vec<(String, String)>,
+    /// dom[k][key column] = the row's elements
+    dom: Vec<Vec<Vec<u128>>>,
+}
+
+fn cs(name: &str, st: ScalarType, row: &[u64], role: Role) -> ColSpec {
+    ColSpec { name: name.to_string(), st, row: row.to_vec(), role }
+}
+
+const M32: u128 = 0xffff_ffff;
+
+fn schemas() -> Vec<Schema> {
+    let nul = || cs(NULL_HEADER, BIT, &[], Role::Null);
+    let u8dom: Vec<Vec<Vec<u128>>> = vec![vec![vec![0]], vec![vec![1]], vec![vec![128]], vec![vec![255]]];
+    let vdom: Vec<Vec<Vec<u128>>> =
+        vec![vec![vec![0, 0]], vec![vec![0, 1 << 31]], vec![vec![M32, 0]], vec![vec![M32, 7]]];
+    // every key differs from key 0 (all zeros) in exactly one element
+    let k2dom: Vec<Vec<Vec<u128>>> = vec![
+        vec![vec![0], vec![0, 0]],
+        vec![vec![0], vec![0, 1 << 31]],
+        vec![vec![128], vec![0, 0]],
+        vec![vec![0], vec![M32, 0]],
+    ];
+    vec![
+        Schema {
+            id: "k1-eq",
+            a: vec![nul(), cs("id", UINT8, &[], Role::Key(0)), cs("pa", INT64, &[], Role::Pay)],
+            b: vec![nul(), cs("id", UINT8, &[], Role::Key(0)), cs("pb", BIT, &[3], Role::Pay)],
+            keys: vec![("id".into(), "id".into())],
+            dom: u8dom.clone(),
+        },
+        Schema {
+            id: "k1-diff",
+            a: vec![nul(), cs("ida", UINT8, &[], Role::Key(0)), cs("pa", INT64, &[], Role::Pay)],
+            b: vec![cs("pb", BIT, &[3], Role::Pay), cs("idb", UINT8, &[], Role::Key(0)), nul()],
+            keys: vec![("ida".into(), "idb".into())],
+            dom: u8dom,
+        },
+        Schema {
+            id: "k2-eq",
+            a: vec![
+                nul(),
+                cs("id", UINT8, &[], Role::Key(0)),
+                cs("v", INT32, &[2], Role::Key(1)),
+                cs("pa", INT64, &[], Role::Pay),
+            ],
+            b: vec![
+                nul(),
+                cs("id", UINT8, &[], Role::Key(0)),
+                cs("v", INT32, &[2], Role::Key(1)),
+                cs("pb", BIT, &[3], Role::Pay),
+            ],
+            keys: vec![("id".into(), "id".into()), ("v".into(), "v".into())],
+            dom: k2dom.clone(),
+        },
+        Schema {
+            id: "k2-diff",
+            a: vec![
+                nul(),
+                cs("va", INT32, &[2], Role::Key(1)),
+                cs("pa", INT64, &[], Role::Pay),
+                cs("id", UINT8, &[], Role::Key(0)),
+            ],
+            b: vec![
+                nul(),
+                cs("id", UINT8, &[], Role::Key(0)),
+                cs("pb", BIT, &[3], Role::Pay),
+                cs("vb", INT32, &[2], Role::Key(1)),
+            ],
+            keys: vec![("id".into(), "id".into()), ("va".into(), "vb".into())],
+            dom: k2dom,
+        },
+        Schema {
+            // a two-bit key: the narrowest key the secure protocol can be given
+            id: "kb-eq",
+            a: vec![nul(), cs("kb", BIT, &[2], Role::Key(0)), cs("pa", INT64, &[], Role::Pay)],
+            b: vec![nul(), cs("kb", BIT, &[2], Role::Key(0)), cs("pb", BIT, &[3], Role::Pay)],
+            keys: vec![("kb".into(), "kb".into())],
+            dom: vec![vec![vec![0, 0]], vec![vec![1, 0]], vec![vec![0, 1]], vec![vec![1, 1]]],
+        },
+        Schema {
+            // the payload column of a is named like the key column of b
+            id: "k1v-cross",
+            a: vec![nul(), cs("va", INT32, &[2], Role::Key(0)), cs("w", INT64, &[], Role::Pay)],
+            b: vec![nul(), cs("w", INT32, &[2], Role::Key(0)), cs("pb", BIT, &[3], Role::Pay)],
+            keys: vec![("va".into(), "w".into())],
+            dom: vdom,
+        },
+    ]
+}
+
+fn schema_by_id(id: &str) -> Schema {
+    schemas().into_iter().find(|s| s.id == id).expect("schema id")
+}
+
+/// kind: 0 = null row with zero data and zero masks, 1 = null row with junk data (key 1 of the domain, a payload,
+/// masks one), 2 = live row
+#[derive(Clone, Copy, PartialEq, Eq, Debug, Hash)]
+struct RowD {
+    kind: u8,
+    key: u8,
+    /// bit c = mask of key column c
+    kmask: u8,
+    pmask: u8,
+}
+
+fn rowd_json(rows: &[RowD]) -> J {
+    J::Array(rows.iter().map(|r| json!([r.kind, r.key, r.kmask, r.pmask])).collect())
+}
+fn rowd_parse(j: &J) -> Vec<RowD> {
+    j.as_array()
+        .expect("rows")
+        .iter()
+        .map(|x| {
+            let v: Vec<u64> = x.as_array().unwrap().iter().map(|y| y.as_u64().unwrap()).collect();
+            RowD { kind: v[0] as u8, key: v[1] as u8, kmask: v[2] as u8, pmask: v[3] as u8 }
+        })
+        .collect()
+}
+
+fn payload(st: &ScalarType, eper: usize, side_b: bool, i: usize) -> Vec<u128> {
+    if *st == BIT {
+        let v = (i as u128 + 1) | 4;
+        (0..eper).map(|k| (v >> k) & 1).collect()
+    } else {
+        let base: u128 = if side_b { 0x4000_0000_0000_0000 } else { 0x8000_0000_0000_0000 };
+        (0..eper).map(|k| (base | (0x0101 * (i as u128 + 1)) | ((k as u128) << 32)) & vals::st_mask(st)).collect()
+    }
+}
+
+fn materialize(s: &Schema, side_b: bool, rows: &[RowD], masked: bool) -> Table {
+    let specs = if side_b { &s.b } else { &s.a };
+    let n = rows.len();
+    let nkeys = s.keys.len();
+    let full_kmask = (1u8 << nkeys) - 1;
+    let mut cols = vec![];
+    for sp in specs.iter() {
+        let eper = sp.row.iter().product::<u64>() as usize;
+        let mut data = vec![];
+        let mut mask = vec![];
+        for (i, r) in rows.iter().enumerate() {
+            match sp.role {
+                Role::Null => data.push((r.kind == 2) as u128),
+                Role::Key(k) => match r.kind {
+                    0 => {
+                        data.extend(vec![0; eper]);
+                        mask.push(0);
+                    }
+                    1 => {
+                        data.extend(s.dom[1][k].iter().cloned());
+                        mask.push(1);
+                    }
+                    _ => {
+                        data.extend(s.dom[r.key as usize][k].iter().cloned());
+                        mask.push((if masked { r.kmask } else { full_kmask } >> k) & 1);
+                    }
+                },
+                Role::Pay => match r.kind {
+                    0 => {
+                        data.extend(vec![0; eper]);
+                        mask.push(0);
+                    }
+                    1 => {
+                        data.extend(payload(&sp.st, eper, side_b, i));
+                        mask.push(1);
+                    }
+                    _ => {
+                        data.extend(payload(&sp.st, eper, side_b, i));
+                        mask.push(if masked { r.pmask } else { 1 });
+                    }
+                },
+            }
+        }
+        let m = vals::st_mask(&sp.st);
+        let data: Vec<u128> = data.iter().map(|x| x & m).collect();
+        cols.push(Col {
+            name: sp.name.clone(),
+            st: sp.st,
+            row: sp.row.clone(),
+            eper,
+            mask: if masked && sp.role != Role::Null { Some(mask) } else { None },
+            data,
+        });
+    }
+    Table { n, cols }
+}
+
+/// Row alphabet. nkeys_dom = number of domain keys used; masked: every key-mask pattern and both payload masks.
+fn alphabet(nkeycols: usize, nkeys_dom: usize, masked: bool, null_kinds: &[u8]) -> Vec<RowD> {
+    let full = (1u8 << nkeycols) - 1;
+    let mut out: Vec<RowD> = null_kinds.iter().map(|k| RowD { kind: *k, key: 0, kmask: 0, pmask: 0 }).collect();
+    for key in 0..nkeys_dom as u8 {
+        if masked {
+            // all ones first (simplest first)
+            for km in (0..=full).rev() {
+                for pm in [1u8, 0u8] {
+                    out.push(RowD { kind: 2, key, kmask: km, pmask: pm });
+                }
+            }
+        } else {
+            out.push(RowD { kind: 2, key, kmask: full, pmask: 1 });
+        }
+    }
+    out
+}
+
+/// all tables of exactly n rows over the alphabet whose keyed rows (live, all key masks one) have distinct keys
+fn tables(alpha: &[RowD], n: usize, nkeycols: usize) -> Vec<Vec<RowD>> {
+    let full = (1u8 << nkeycols) - 1;
+    let mut out = vec![];
+    let mut idx = vec![0usize; n];
+    loop {
+        let rows: Vec<RowD> = idx.iter().map(|i| alpha[*i]).collect();
+        let mut ok = true;
+        for i in 0..n {
+            for j in 0..i {
+                if rows[i].kind == 2
+                    && rows[j].kind == 2
+                    && rows[i].kmask == full
+                    && rows[j].kmask == full
+                    && rows[i].key == rows[j].key
+                {
+                    ok = false;
+                }
+            }
+        }
+        if ok {
+            out.push(rows);
+        }
+        // next (last index fastest)
+        let mut p = n;
+        loop {
+            if p == 0 {
+                return out;
+            }
+            p -= 1;
+            idx[p] += 1;
+            if idx[p] < alpha.len() {
+                break;
+            }
+            idx[p] = 0;
+        }
+    }
+}
+
+fn n_live(rows: &[RowD]) -> usize {
+    rows.iter().filter(|r| r.kind == 2).count()
+}
+
+// ---------------------------------------------------------------------------------------------
+// the real graph
+// ---------------------------------------------------------------------------------------------
+
+fn headers_map(s: &Schema) -> HashMap<String, String> {
+    s.keys.iter().cloned().collect()
+}
+
+/// One-Join graph. split_a: the first table is assembled with create_named_tuple from one input per column.
+fn build_ctx(ta: &Type, tb: &Type, s: &Schema, jt: JoinType, masked: bool, split_a: bool) -> Result<Context, String> {
+    let (ta, tb, hm) = (ta.clone(), tb.clone(), headers_map(s));
+    let res = catch(move || -> ciphercore_base::errors::Result<Context> {
+        let c = create_context()?;
+        let g = c.create_graph()?;
+        let a = if split_a {
+            let mut cols = vec![];
+            for (name, t) in ta.get_named_types()? {
+                cols.push((name.clone(), g.input(t.clone())?));
+            }
+            g.create_named_tuple(cols)?
+        } else {
+            g.input(ta)?
+        };
+        let b = g.input(tb)?;
+        let o = if masked { g.join_with_column_masks(a, b, jt, hm)? } else { g.join(a, b, jt, hm)? };
+        o.set_as_output()?;
+        g.finalize()?;
+        g.set_as_main()?;
+        c.finalize()?;
+        Ok(c)
+    });
+    match res {
+        Ok(Ok(c)) => Ok(c),
+        Ok(Err(e)) => Err(format!("error: {}", crate::exec::first_line(&e.to_string()))),
+        Err(p) => Err(format!("panic: {}", p)),
+    }
+}
+
+fn plain_inputs(a: &Table, b: &Table, split_a: bool) -> Vec<Value> {
+    let mut v = vec![];
+    if split_a {
+        for c in 0..a.cols.len() {
+            v.push(a.col_value(c));
+        }
+    } else {
+        v.push(a.value());
+    }
+    v.push(b.value());
+    v
+}
+
+// ---------------------------------------------------------------------------------------------
+// per-task result (merged in enumeration order => deterministic evidence)
+// ---------------------------------------------------------------------------------------------
+
+#[derive(Default)]
+struct Out {
+    counts: BTreeMap<String, u64>,
+    viols: Vec<(String, String, J)>,
+    distinct: Vec<u64>,
+    samples: Vec<J>,
+}
+impl Out {
+    fn count(&mut self, k: &str, n: u64) {
+        *self.counts.entry(k.to_string()).or_insert(0) += n;
+    }
+    fn violation(&mut self, sig: String, what: String, case: J) {
+        self.count("task_violating_cases", 1);
+        if !self.viols.iter().any(|v| v.0 == sig) {
+            self.viols.push((sig, what, case));
+        }
+    }
+}
+
+fn merge(r: &Report, outs: Vec<Out>) {
+    for o in outs {
+        for (k, v) in o.counts.iter() {
+            if k != "task_violating_cases" {
+                r.count(k, *v);
+            }
+        }
+        // Report::violation counts one violating case per call; only first-per-signature cases are forwarded,
+        // the total is kept in an own counter
+        if let Some(n) = o.counts.get("task_violating_cases") {
+            r.count("violating_cases_total", *n);
+        }
+        for (s, w, c) in o.viols {
+            if std::env::var("VERIF_C19_DEBUG").is_ok() {
+                eprintln!("VIOL {} :: {}", s, w.chars().take(900).collect::<String>());
+            }
+            r.violation(&s, &w, c);
+        }
+        for d in o.distinct {
+            r.distinct(d);
+        }
+        for s in o.samples {
+            r.sample(s);
+        }
+    }
+}
+
+// ---------------------------------------------------------------------------------------------
+// part 1: plaintext
+// ---------------------------------------------------------------------------------------------
+
+struct PlainTask {
+    schema: Schema,
+    jt: JoinType,
+    masked: bool,
+    ta: Vec<Vec<RowD>>,
+    tb: Vec<Vec<RowD>>,
+}
+
+fn plain_case_json(s: &Schema, jt: JoinType, masked: bool, a: &[RowD], b: &[RowD]) -> J {
+    json!({"part": "plain", "schema": s.id, "join": jt_name(jt), "masked": masked,
+           "a": rowd_json(a), "b": rowd_json(b)})
+}
+
+/// evaluates the one-Join graph with the library's evaluator and compares with the reference.
+/// Returns Ok(()) or Err((kind, message)).
+fn check_plain_one(
+    ev: &mut ciphercore_base::evaluators::simple_evaluator::SimpleEvaluator,
+    ctx: &Context,
+    a: &Table,
+    b: &Table,
+    expected: &Table,
+    out_t: &Type,
+) -> Result<(), (String, String)> {
+    let ins = plain_inputs(a, b, false);
+    let c = ctx.clone();
+    let got = match catch(|| ev.evaluate_context(c, ins)) {
+        Ok(Ok(v)) => v,
+        Ok(Err(e)) => {
+            let m = crate::exec::first_line(&e.to_string());
+            return Err((format!("error:{}", short_msg(&m)), format!("evaluation fails: {}", m)));
+        }
+        Err(p) => return Err((format!("panic:{}", short_msg(&p)), format!("evaluation panics: {}", p))),
+    };
+    let exp_v = expected.value();
+    if !vals::layout_ok(&got, out_t) {
+        return Err(("layout".into(), "result value does not have the layout of the result type".into()));
+    }
+    if got != exp_v {
+        return Err((
+            "wrong-table".into(),
+            format!("result {} instead of {}", vals::show(&got, out_t), vals::show(&exp_v, out_t)),
+        ));
+    }
+    Ok(())
+}
+
+/// stable head of an error message: digits replaced, cut at the first ',' or ':'
+fn short_msg(m: &str) -> String {
+    let s = stable_msg(m);
+    let cut = s.find(|c| c == ',' || c == ':').unwrap_or(s.len());
+    s[..cut].trim().to_string()
+}
+
+/// message without the "node N (Op): " and "error: " / "panic: " prefixes, shortened
+fn core_msg(m: &str) -> String {
+    let mut t = m;
+    if t.starts_with("node ") {
+        if let Some(p) = t.find("): ") {
+            t = &t[p + 3..];
+        }
+    }
+    for pre in ["error: ", "panic: "] {
+        if let Some(rest) = t.strip_prefix(pre) {
+            t = rest;
+        }
+    }
+    short_msg(t)
+}
+
+fn run_plain_task(t: &PlainTask, want_samples: bool) -> Out {
+    let mut o = Out::default();
+    let s = &t.schema;
+    let proto_a = materialize(s, false, &t.ta[0], t.masked);
+    let proto_b = materialize(s, true, &t.tb[0], t.masked);
+    let ctx = match build_ctx(&proto_a.ty(), &proto_b.ty(), s, t.jt, t.masked, false) {
+        Ok(c) => c,
+        Err(m) => {
+            o.count("graphs_rejected", 1);
+            o.violation(
+                format!("C19:plain:{}:{}:build:{}", jt_name(t.jt), s.id, stable_msg(&m)),
+                format!("a documented join graph cannot be built: {}", m),
+                plain_case_json(s, t.jt, t.masked, &t.ta[0], &t.tb[0]),
+            );
+            return o;
+        }
+    };
+    o.count("plain_graphs", 1);
+    let out_t = mpcx::output_type(&ctx);
+    // the result type must be the one the reference predicts (column order, row count)
+    let exp_t = ref_join(&proto_a, &proto_b, t.jt, &s.keys).ty();
+    if out_t != exp_t {
+        o.violation(
+            format!("C19:plain:{}:{}:result-type", jt_name(t.jt), s.id),
+            format!("result type {} instead of {}", out_t, exp_t),
+            plain_case_json(s, t.jt, t.masked, &t.ta[0], &t.tb[0]),
+        );
+        return o;
+    }
+    o.count("result_types_checked", 1);
+    let mut ev = new_eval(1);
+    if let Err(e) = ev.preprocess(&ctx) {
+        o.violation(
+            format!("C19:plain:{}:{}:preprocess", jt_name(t.jt), s.id),
+            format!("preprocess fails: {}", e),
+            plain_case_json(s, t.jt, t.masked, &t.ta[0], &t.tb[0]),
+        );
+        return o;
+    }
+    let tabs_a: Vec<Table> = t.ta.iter().map(|r| materialize(s, false, r, t.masked)).collect();
+    let tabs_b: Vec<Table> = t.tb.iter().map(|r| materialize(s, true, r, t.masked)).collect();
+    for (ia, a) in tabs_a.iter().enumerate() {
+        for (ib, b) in tabs_b.iter().enumerate() {
+            let expected = ref_join(a, b, t.jt, &s.keys);
+            o.count("evaluations", 1);
+            o.count(if t.masked { "plain_masked_evaluations" } else { "plain_unmasked_evaluations" }, 1);
+            let (ra, rb) = (&t.ta[ia], &t.tb[ib]);
+            // bookkeeping of what the case exercises
+            let nulls = expected.cols[expected.null_idx()].data.iter().filter(|x| **x == 1).count();
+            let matches = (0..a.n)
+                .filter(|i| {
+                    let ka: Vec<usize> = s.keys.iter().map(|k| a.col_idx(&k.0)).collect();
+                    let kb: Vec<usize> = s.keys.iter().map(|k| b.col_idx(&k.1)).collect();
+                    a.row_key(*i, &ka).and_then(|k| b.find(&k, &kb)).is_some()
+                })
+                .count();
+            if matches > 0 {
+                o.count("cases_with_matching_rows", 1);
+            }
+            if nulls > 0 {
+                o.count("cases_with_nonempty_result", 1);
+            }
+            if t.masked && (ra.iter().chain(rb.iter())).any(|r| r.kind == 2 && (r.kmask as usize) != (1 << s.keys.len()) - 1) {
+                o.count("cases_with_masked_key_entry", 1);
+            }
+            if n_live(ra) > 0 && n_live(rb) > 0 {
+                o.distinct.push(hash_str(&format!(
+                    "p|{}|{}|{}|{:?}|{:?}",
+                    s.id,
+                    jt_name(t.jt),
+                    t.masked,
+                    ra,
+                    rb
+                )));
+            }
+            if want_samples && ia == tabs_a.len() - 1 && ib == tabs_b.len() - 1 {
+                o.samples.push(json!({"case": plain_case_json(s, t.jt, t.masked, ra, rb),
+                    "a": a.show(), "b": b.show(), "expected": expected.show()}));
+            }
+            if let Err((kind, msg)) = check_plain_one(&mut ev, &ctx, a, b, &expected, &out_t) {
+                o.violation(
+                    if kind == "wrong-table" {
+                        format!("C19:plain:{}{}:{}:{}", jt_name(t.jt), if t.masked { ":masked" } else { "" }, s.id, kind)
+                    } else {
+                        format!("C19:plain:{}{}:{}", jt_name(t.jt), if t.masked { ":masked" } else { "" }, kind)
+                    },
+                    format!(
+                        "{} join{} of a={} b={} (schema {}): {}",
+                        jt_name(t.jt),
+                        if t.masked { " with column masks" } else { "" },
+                        a.show(),
+                        b.show(),
+                        s.id,
+                        msg
+                    ),
+                    plain_case_json(s, t.jt, t.masked, ra, rb),
+                );
+            }
+        }
+    }
+    o
+}
+
+// ---------------------------------------------------------------------------------------------
+// part 2: compiled
+// ---------------------------------------------------------------------------------------------
+
+#[derive(Clone, Debug)]
+struct OwnerCfg {
+    name: &'static str,
+    /// class used in violation signatures
+    class: &'static str,
+    split_a: bool,
+    /// owner of table a (or of its columns when split_a: null+key columns / payload columns)
+    a: Owner,
+    a_pay: Owner,
+    b: Owner,
+    out: u8,
+}
+
+fn owner_cfgs() -> Vec<OwnerCfg> {
+    let p = Owner::P;
+    vec![
+        OwnerCfg { name: "P0,P1", class: "both-private", split_a: false, a: p(0), a_pay: p(0), b: p(1), out: 2 },
+        OwnerCfg { name: "P1,P1", class: "both-private", split_a: false, a: p(1), a_pay: p(1), b: p(1), out: 0 },
+        OwnerCfg { name: "shared,P2", class: "both-private", split_a: false, a: Owner::Shared, a_pay: Owner::Shared, b: p(2), out: 1 },
+        OwnerCfg { name: "pub,P0", class: "public-first", split_a: false, a: Owner::Public, a_pay: Owner::Public, b: p(0), out: 0 },
+        OwnerCfg { name: "P0,pub", class: "public-second", split_a: false, a: p(0), a_pay: p(0), b: Owner::Public, out: 1 },
+        OwnerCfg { name: "P0+pubcol,P1", class: "public-column", split_a: true, a: p(0), a_pay: Owner::Public, b: p(1), out: 2 },
+    ]
+}
+
+fn owners_vec(oc: &OwnerCfg, s: &Schema) -> Vec<Owner> {
+    let mut v = vec![];
+    if oc.split_a {
+        for sp in s.a.iter() {
+            v.push(if sp.role == Role::Pay { oc.a_pay } else { oc.a });
+        }
+    } else {
+        v.push(oc.a);
+    }
+    v.push(oc.b);
+    v
+}
+
+struct CompTask {
+    schema: Schema,
+    jt: JoinType,
+    masked: bool,
+    na: usize,
+    nb: usize,
+    oc: OwnerCfg,
+    ta: Vec<Vec<RowD>>,
+    tb: Vec<Vec<RowD>>,
+    seed: u64,
+    /// quick tier: only the three-party run, junk zeros for even / ones for odd pair index
+    alternate_junk: bool,
+    /// (i, n): this task handles the table pairs whose index is i modulo n (large tasks are split for parallelism)
+    chunk: (u64, u64),
+}
+
+fn comp_case_json(t: &CompTask, a: &[RowD], b: &[RowD], mode: &str, junk: u8, case_seed: u64) -> J {
+    json!({"part": "compiled", "schema": t.schema.id, "join": jt_name(t.jt), "masked": t.masked,
+           "owners": t.oc.name, "a": rowd_json(a), "b": rowd_json(b), "mode": mode, "junk": junk,
+           "case_seed": case_seed.to_string()})
+}
+
+/// configuration class of a compiled case: owner class, plus "narrow-key" when the merged key has at most 8 bits
+/// (then the random rows that pad the cuckoo table collide with real keys with noticeable probability)
+fn cfg_class(oc: &OwnerCfg, s: &Schema) -> String {
+    let bits: u64 = s
+        .a
+        .iter()
+        .filter(|c| matches!(c.role, Role::Key(_)))
+        .map(|c| c.row.iter().product::<u64>() * vals::st_bits(&c.st) as u64)
+        .sum();
+    if bits <= 8 {
+        format!("{}:narrow-key", oc.class)
+    } else {
+        oc.class.to_string()
+    }
+}
+
+struct Compiled {
+    plan: Plan,
+    types: Vec<Type>,
+    out_t: Type,
+    owners: Vec<Owner>,
+    plain_ctx: Context,
+    /// keeps the compiled context alive (the plan's nodes hold weak references to it)
+    _mpc: Context,
+}
+
+fn compile_for(s: &Schema, jt: JoinType, masked: bool, na: usize, nb: usize, oc: &OwnerCfg) -> Result<Compiled, String> {
+    let full = (1u8 << s.keys.len()) - 1;
+    let row = RowD { kind: 2, key: 0, kmask: full, pmask: 1 };
+    let pa = materialize(s, false, &vec![row; na], masked);
+    let pb = materialize(s, true, &vec![row; nb], masked);
+    let ctx = build_ctx(&pa.ty(), &pb.ty(), s, jt, masked, oc.split_a)?;
+    let owners = owners_vec(oc, s);
+    let mpc = mpcx::compile(&ctx, &owners, &[oc.out], &InlineMode::Simple)?;
+    let plan = Plan::of_context(&mpc)?;
+    Ok(Compiled { plan, types: mpcx::input_types(&ctx), out_t: mpcx::output_type(&ctx), owners, plain_ctx: ctx, _mpc: mpc })
+}
+
+enum Verdict {
+    Ok,
+    AllowedAbort,
+    Bad(String, String), // (kind, message)
+}
+
+fn is_cuckoo(m: &str) -> bool {
+    m.contains("Cuckoo hashing failed")
+}
+
+fn run_compiled_one(
+    c: &Compiled,
+    oc: &OwnerCfg,
+    a: &Table,
+    b: &Table,
+    expected: &Value,
+    mode: &str,
+    junk: u8,
+    case_seed: u64,
+) -> Verdict {
+    let plain = plain_inputs(a, b, oc.split_a);
+    let mut sm = SplitMix(case_seed ^ 0x5eed_c19);
+    let mut share_bytes = move || (sm.next() & 0xff) as u8;
+    if mode == "global" {
+        let gi = mpcx::global_inputs(&c.types, &c.owners, &plain, &mut share_bytes);
+        match mpcx::eval_compiled_global(&c.plan, &gi, case_seed, &mut RealRandomness) {
+            Err(m) => {
+                if is_cuckoo(&m) {
+                    Verdict::AllowedAbort
+                } else {
+                    Verdict::Bad(format!("error:{}", core_msg(&m)), format!("evaluation fails: {}", m))
+                }
+            }
+            Ok(v) => match mpcx::check_global_output(&v, expected, &c.out_t, &[oc.out]) {
+                Ok(()) => Verdict::Ok,
+                Err(m) => Verdict::Bad("wrong-table".into(), m),
+            },
+        }
+    } else {
+        let mut jf = move || junk;
+        let pi = mpcx::party_inputs(&c.types, &c.owners, &plain, &mut share_bytes, &mut jf);
+        let seeds = [case_seed ^ 0x1111, case_seed ^ 0x2222, case_seed ^ 0x3333];
+        let run = mpcx::eval_compiled_three(&c.plan, &pi, seeds, &mut RealRandomness);
+        match mpcx::check_three_output(&c.plan, &run, expected, &c.out_t, &[oc.out]) {
+            Ok(()) => Verdict::Ok,
+            Err(m) => {
+                // allowed abort: the party that runs cuckoo hashing on the real OPRF values (party 1) fails there
+                if let Some((n, pm)) = run.vals[oc.out as usize][c.plan.output].first_poison() {
+                    if is_cuckoo(&pm) && n < c.plan.nodes.len() {
+                        if let crate::exec::PVal::Poison(n1, m1) = &run.vals[1][n] {
+                            if *n1 == n && is_cuckoo(m1) {
+                                return Verdict::AllowedAbort;
+                            }
+                        }
+                    }
+                    return Verdict::Bad(format!("abort:{}", core_msg(&pm)), m);
+                }
+                Verdict::Bad("wrong-table".into(), m)
+            }
+        }
+    }
+}
+
+fn run_comp_task(t: &CompTask, want_samples: bool) -> Out {
+    let mut o = Out::default();
+    let s = &t.schema;
+    let dbg_tc = std::time::Instant::now();
+    let c = match compile_for(s, t.jt, t.masked, t.na, t.nb, &t.oc) {
+        Ok(c) => c,
+        Err(m) => {
+            o.violation(
+                format!(
+                    "C19:compile:{}:{}{}:{}",
+                    jt_name(t.jt),
+                    cfg_class(&t.oc, s),
+                    if t.masked { ":masked" } else { "" },
+                    stable_msg(&m)
+                ),
+                format!(
+                    "{} join (schema {}, owners {}, {}x{} rows) cannot be compiled: {}",
+                    jt_name(t.jt),
+                    s.id,
+                    t.oc.name,
+                    t.na,
+                    t.nb,
+                    m
+                ),
+                comp_case_json(t, &t.ta[0], &t.tb[0], "compile", 0, 0),
+            );
+            return o;
+        }
+    };
+    o.count("compilations", 1);
+    let dbg_t0 = std::time::Instant::now();
+    o.count("compiled_nodes", c.plan.nodes.len() as u64);
+    let mut ev = new_eval(1);
+    let _ = ev.preprocess(&c.plain_ctx);
+    let tabs_a: Vec<Table> = t.ta.iter().map(|r| materialize(s, false, r, t.masked)).collect();
+    let tabs_b: Vec<Table> = t.tb.iter().map(|r| materialize(s, true, r, t.masked)).collect();
+    let mut idx = 0u64;
+    for (ia, a) in tabs_a.iter().enumerate() {
+        for (ib, b) in tabs_b.iter().enumerate() {
+            idx += 1;
+            if idx % t.chunk.1 != t.chunk.0 {
+                continue;
+            }
+            let (ra, rb) = (&t.ta[ia], &t.tb[ib]);
+            let exp_t = ref_join(a, b, t.jt, &s.keys);
+            let expected = exp_t.value();
+            // plaintext evaluation of the very same graph agrees with the reference (the oracle of the compiled runs)
+            let pc = c.plain_ctx.clone();
+            let pin = plain_inputs(a, b, t.oc.split_a);
+            match catch(|| ev.evaluate_context(pc, pin)) {
+                Ok(Ok(v)) if v == expected => o.count("plaintext_agrees_with_reference", 1),
+                other => {
+                    let what = match other {
+                        Ok(Ok(v)) => format!("gives {}", vals::show(&v, &c.out_t)),
+                        Ok(Err(e)) => format!("fails: {}", crate::exec::first_line(&e.to_string())),
+                        Err(p) => format!("panics: {}", p),
+                    };
+                    o.violation(
+                        format!("C19:plain:{}:{}:graph-of-compiled-part", jt_name(t.jt), s.id),
+                        format!("plaintext evaluation of the graph (a={} b={}) {} instead of {}", a.show(), b.show(), what, exp_t.show()),
+                        comp_case_json(t, ra, rb, "plain", 0, 0),
+                    );
+                    continue;
+                }
+            }
+            let nontrivial = n_live(ra) > 0 && n_live(rb) > 0;
+            let runs: Vec<(&str, u8)> = if t.alternate_junk {
+                let j = if idx % 2 == 1 { 0xffu8 } else { 0x00u8 };
+                if matches!(t.jt, JoinType::Union | JoinType::Full) {
+                    // the three-party run of these is a known finding: keep the protocol logic covered by the global run
+                    vec![("global", 0u8), ("three", j)]
+                } else {
+                    vec![("three", j)]
+                }
+            } else {
+                vec![("global", 0u8), ("three", 0x00u8), ("three", 0xffu8)]
+            };
+            for (mode, junk) in runs {
+                let case_seed = t.seed
+                    ^ hash_str(&format!("{}|{}|{}|{}|{}|{}|{}", s.id, jt_name(t.jt), t.masked, t.oc.name, t.na, t.nb, idx));
+                o.count("evaluations", 1);
+                o.count(if mode == "global" { "compiled_global_runs" } else { "compiled_three_party_runs" }, 1);
+                if nontrivial {
+                    o.distinct.push(hash_str(&format!(
+                        "c|{}|{}|{}|{}|{:?}|{:?}|{}|{}",
+                        s.id,
+                        jt_name(t.jt),
+                        t.masked,
+                        t.oc.name,
+                        ra,
+                        rb,
+                        mode,
+                        junk
+                    )));
+                }
+                match run_compiled_one(&c, &t.oc, a, b, &expected, mode, junk, case_seed) {
+                    Verdict::Ok => {
+                        o.count(if mode == "global" { "compiled_global_ok" } else { "compiled_three_party_ok" }, 1);
+                        if exp_t.cols[exp_t.null_idx()].data.iter().any(|x| *x == 1) {
+                            o.count("compiled_ok_with_nonempty_result", 1);
+                        }
+                    }
+                    Verdict::AllowedAbort => o.count("allowed_cuckoo_aborts", 1),
+                    Verdict::Bad(kind, msg) => {
+                        let modename = if mode == "global" { "global" } else { "3party" };
+                        // joins with column masks share one defect across owner classes (see known findings): no class
+                        let mut sig = if t.masked {
+                            format!("C19:compiled-{}:masked:{}", modename, jt_name(t.jt))
+                        } else {
+                            format!("C19:compiled-{}:{}:{}", modename, jt_name(t.jt), cfg_class(&t.oc, s))
+                        };
+                        if kind != "wrong-table" {
+                            sig.push_str(&format!(":{}", kind));
+                        }
+                        o.violation(
+                            sig,
+                            format!(
+                                "compiled {} join{} (schema {}, owners {}, output party {}, {} mode, junk {:#04x}) of a={} b={}: {}",
+                                jt_name(t.jt),
+                                if t.masked { " with column masks" } else { "" },
+                                s.id,
+                                t.oc.name,
+                                t.oc.out,
+                                mode,
+                                junk,
+                                a.show(),
+                                b.show(),
+                                msg
+                            ),
+                            comp_case_json(t, ra, rb, mode, junk, case_seed),
+                        );
+                    }
+                }
+            }
+            if std::env::var("VERIF_C19_DEBUG").is_ok() && ia == tabs_a.len() - 1 && ib == tabs_b.len() - 1 {
+                eprintln!(
+                    "TIMING {} {} {}x{} nodes={} compile_s={:.2} pairs={} eval_s={:.2}",
+                    jt_name(t.jt),
+                    t.oc.name,
+                    t.na,
+                    t.nb,
+                    c.plan.nodes.len(),
+                    (dbg_t0 - dbg_tc).as_secs_f64(),
+                    tabs_a.len() * tabs_b.len(),
+                    dbg_t0.elapsed().as_secs_f64()
+                );
+            }
+            if want_samples && ia == tabs_a.len() - 1 && ib == tabs_b.len() - 1 {
+                o.samples.push(json!({"case": comp_case_json(t, ra, rb, "three", 255, 0),
+                    "a": a.show(), "b": b.show(), "expected": exp_t.show()}));
+            }
+        }
+    }
+    o
+}
+
+// ---------------------------------------------------------------------------------------------
+// self-test of the reference on the example every reader of the documentation would work out by hand
+// ---------------------------------------------------------------------------------------------
+
+fn reference_selftest() -> Result<(), String> {
+    let s = schema_by_id("k1-diff");
+    let live = |k: u8| RowD { kind: 2, key: k, kmask: 1, pmask: 1 };
+    let nul = RowD { kind: 1, key: 0, kmask: 0, pmask: 0 };
+    let a = materialize(&s, false, &[live(1), nul, live(2)], false);
+    let b = materialize(&s, true, &[live(2), live(3)], false);
+    // a: ids 1, -, 128 ; b: ids 128, 255
+    let col = |t: &Table, name: &str| t.cols[t.col_idx(name)].data.clone();
+    let pa = |i: usize| payload(&INT64, 1, false, i)[0];
+    let pb = |i: usize| payload(&BIT, 3, true, i);
+    let inner = ref_join(&a, &b, JoinType::Inner, &s.keys);
+    let names: Vec<&str> = inner.cols.iter().map(|c| c.name.as_str()).collect();
+    if names != vec![NULL_HEADER, "ida", "pa", "pb"] {
+        return Err(format!("column order {:?}", names));
+    }
+    if col(&inner, NULL_HEADER) != vec![0, 0, 1] || col(&inner, "ida") != vec![0, 0, 128] || col(&inner, "pa") != vec![0, 0, pa(2)] {
+        return Err("inner".into());
+    }
+    if col(&inner, "pb") != [vec![0, 0, 0], vec![0, 0, 0], pb(0)].concat() {
+        return Err("inner pb".into());
+    }
+    let left = ref_join(&a, &b, JoinType::Left, &s.keys);
+    if col(&left, NULL_HEADER) != vec![1, 0, 1] || col(&left, "ida") != vec![1, 0, 128] || col(&left, "pa") != vec![pa(0), 0, pa(2)] {
+        return Err("left".into());
+    }
+    let union = ref_join(&a, &b, JoinType::Union, &s.keys);
+    if col(&union, NULL_HEADER) != vec![1, 0, 0, 1, 1]
+        || col(&union, "ida") != vec![1, 0, 0, 128, 255]
+        || col(&union, "pa") != vec![pa(0), 0, 0, 0, 0]
+        || col(&union, "pb") != [vec![0; 9], pb(0), pb(1)].concat()
+    {
+        return Err("union".into());
+    }
+    let full = ref_join(&a, &b, JoinType::Full, &s.keys);
+    if col(&full, NULL_HEADER) != vec![1, 0, 0, 1, 1]
+        || col(&full, "ida") != vec![1, 0, 0, 128, 255]
+        || col(&full, "pa") != vec![pa(0), 0, 0, pa(2), 0]
+        || col(&full, "pb") != [vec![0; 9], pb(0), pb(1)].concat()
+    {
+        return Err("full".into());
+    }
+    Ok(())
+}
+
+// ---------------------------------------------------------------------------------------------
+// run
+// ---------------------------------------------------------------------------------------------
+
+const NULL_KINDS: [u8; 2] = [0, 1];
+
+fn plain_tasks(thorough: bool) -> Vec<PlainTask> {
+    let mut tasks = vec![];
+    for masked in [false, true] {
+        for s in schemas() {
+            let nk = s.keys.len();
+            // unmasked: 4 domain keys, 1..=3 rows; masked: 3 (two key columns) or 4 (one) domain keys, 1..=2 rows
+            let (ndom, maxn) = if masked { (if nk == 2 { 3 } else { 4 }, 2) } else { (4, 3) };
+            let alpha = alphabet(nk, ndom, masked, &NULL_KINDS);
+            let tabs: Vec<Vec<Vec<RowD>>> = (0..=maxn).map(|n| if n == 0 { vec![] } else { tables(&alpha, n, nk) }).collect();
+            for jt in JTS {
+                for na in 1..=maxn {
+                    for nb in 1..=maxn {
+                        if !thorough {
+                            // quick: at most 2 rows on one side (unmasked); masked: one side 1 row or both payload masks one
+                            if !masked && na == 3 && nb == 3 {
+                                continue;
+                            }
+                        }
+                        let (mut ta, mut tb) = (tabs[na].clone(), tabs[nb].clone());
+                        if !thorough && masked && na == 2 && nb == 2 {
+                            ta.retain(|t| t.iter().all(|r| r.kind != 2 || r.pmask == 1));
+                            tb.retain(|t| t.iter().all(|r| r.kind != 2 || r.pmask == 1));
+                        }
+                        tasks.push(PlainTask { schema: s.clone(), jt, masked, ta, tb });
+                    }
+                }
+            }
+        }
+    }
+    tasks
+}
+
+fn comp_tasks(thorough: bool, seed: u64) -> Vec<CompTask> {
+    let mut tasks = vec![];
+    let live = |key: u8, kmask: u8, pmask: u8| RowD { kind: 2, key, kmask, pmask };
+    let nul = |kind: u8| RowD { kind, key: 0, kmask: 0, pmask: 0 };
+    let all_sizes = vec![(1usize, 1usize), (1, 2), (2, 1), (2, 2)];
+    let ocs = owner_cfgs();
+    struct Variant {
+        sid: &'static str,
+        masked: bool,
+        jts: Vec<JoinType>,
+        /// row alphabet; alpha22 replaces it for 2x2 tables (cost)
+        alpha: Vec<RowD>,
+        alpha22: Option<Vec<RowD>>,
+        cfgs: Vec<(OwnerCfg, Vec<(usize, usize)>)>,
+        alternate_junk: bool,
+    }
+    let variants: Vec<Variant> = if thorough {
+        vec![
+            // A: two key columns (u8, i32[2]) with differing names, every owner configuration, every size
+            Variant {
+                sid: "k2-diff",
+                masked: false,
+                jts: JTS.to_vec(),
+                alpha: vec![nul(0), nul(1), live(0, 3, 1), live(1, 3, 1)],
+                alpha22: Some(vec![nul(1), live(0, 3, 1), live(1, 3, 1)]),
+                cfgs: ocs.iter().map(|o| (o.clone(), all_sizes.clone())).collect(),
+                alternate_junk: false,
+            },
+            // B: column masks, every key-mask pattern on key 0, a masked payload
+            Variant {
+                sid: "k2-diff",
+                masked: true,
+                jts: JTS.to_vec(),
+                alpha: vec![nul(1), live(0, 3, 1), live(0, 2, 1), live(0, 1, 1), live(1, 3, 0)],
+                alpha22: None,
+                cfgs: [0usize, 3, 4].iter().map(|i| (ocs[*i].clone(), vec![(1, 1), (2, 1)])).collect(),
+                alternate_junk: false,
+            },
+            // C: one u8 key column, equal names
+            Variant {
+                sid: "k1-eq",
+                masked: false,
+                jts: JTS.to_vec(),
+                alpha: vec![nul(1), live(0, 1, 1), live(1, 1, 1)],
+                alpha22: None,
+                cfgs: [0usize, 2].iter().map(|i| (ocs[*i].clone(), vec![(2, 2)])).collect(),
+                alternate_junk: false,
+            },
+            // D: a two-bit key (rows of the padded cuckoo table collide with real keys with probability 1/4)
+            Variant {
+                sid: "kb-eq",
+                masked: false,
+                jts: vec![JoinType::Inner, JoinType::Left, JoinType::Union],
+                alpha: vec![nul(1), live(0, 1, 1), live(1, 1, 1), live(2, 1, 1)],
+                alpha22: None,
+                cfgs: [0usize, 2].iter().map(|i| (ocs[*i].clone(), vec![(2, 2)])).collect(),
+                alternate_junk: false,
+            },
+        ]
+    } else {
+        // quick: one table-size combination per owner configuration, junk pattern alternating with the pair index,
+        // global run only where the three-party run is a known finding
+        let sizes = [(2usize, 2usize), (1, 2), (2, 1), (2, 1), (1, 2), (2, 1)];
+        vec![
+            Variant {
+                sid: "k2-diff",
+                masked: false,
+                jts: JTS.to_vec(),
+                alpha: vec![nul(1), live(0, 3, 1), live(1, 3, 1)],
+                alpha22: None,
+                cfgs: ocs.iter().enumerate().map(|(i, o)| (o.clone(), vec![sizes[i]])).collect(),
+                alternate_junk: true,
+            },
+            Variant {
+                sid: "kb-eq",
+                masked: false,
+                jts: vec![JoinType::Inner],
+                alpha: vec![nul(1), live(0, 1, 1), live(1, 1, 1)],
+                alpha22: None,
+                cfgs: vec![(ocs[0].clone(), vec![(2, 2)])],
+                alternate_junk: true,
+            },
+        ]
+    };
+    let only_schema = std::env::var("VERIF_C19_SCHEMA").unwrap_or_default(); // development knob
+    for v in variants {
+        if !only_schema.is_empty() && only_schema != v.sid {
+            continue;
+        }
+        if std::env::var("VERIF_C19_MASKED").is_ok() && !v.masked {
+            continue;
+        }
+        let s = schema_by_id(v.sid);
+        let nk = s.keys.len();
+        let tabs: Vec<Vec<Vec<RowD>>> = (0..=2).map(|n| if n == 0 { vec![] } else { tables(&v.alpha, n, nk) }).collect();
+        let tabs22: Vec<Vec<RowD>> = match &v.alpha22 {
+            Some(al) => tables(al, 2, nk),
+            None => tabs[2].clone(),
+        };
+        for jt in v.jts.iter() {
+            for (oc, sizes) in v.cfgs.iter() {
+                for (na, nb) in sizes.iter() {
+                    let (ta, tb) = if (*na, *nb) == (2, 2) {
+                        (tabs22.clone(), tabs22.clone())
+                    } else {
+                        (tabs[*na].clone(), tabs[*nb].clone())
+                    };
+                    let pairs = (ta.len() * tb.len()) as u64;
+                    let nchunks = (pairs + 24) / 25;
+                    for ci in 0..nchunks {
+                        tasks.push(CompTask {
+                            schema: s.clone(),
+                            jt: *jt,
+                            masked: v.masked,
+                            na: *na,
+                            nb: *nb,
+                            oc: oc.clone(),
+                            ta: ta.clone(),
+                            tb: tb.clone(),
+                            seed,
+                            alternate_junk: v.alternate_junk,
+                            chunk: (ci, nchunks),
+                        });
+                    }
+                }
+            }
+        }
+    }
+    tasks
+}
+
+pub fn run(r: &Report) -> i32 {
+    if let Err(m) = reference_selftest() {
+        println!("MACHINERY-ERROR property=C19 reference join fails its hand-worked example: {}", m);
+        return 2;
+    }
+    // tables without rows cannot be expressed (array dimensions must be positive): recorded, not assumed
+    let zero_rows_rejected = match catch(|| {
+        let c = create_context().unwrap();
+        let g = c.create_graph().unwrap();
+        g.input(named_tuple_type(vec![
+            (NULL_HEADER.to_string(), array_type(vec![0], BIT)),
+            ("id".to_string(), array_type(vec![0], UINT8)),
+        ]))
+        .is_err()
+    }) {
+        Ok(b) => b,
+        Err(_) => true,
+    };
+    r.extra("zero_row_tables_rejected_by_builder", json!(zero_rows_rejected));
+    let thorough = r.tier.thorough();
+
+    // part 1
+    let only = std::env::var("VERIF_C19_PART").unwrap_or_default(); // development knob: "plain" | "compiled"
+    let ptasks = if only == "compiled" { vec![] } else { plain_tasks(thorough) };
+    let outs: Vec<Out> = ptasks
+        .par_iter()
+        .enumerate()
+        .map(|(i, t)| run_plain_task(t, i % 97 == 5))
+        .collect();
+    merge(r, outs);
+    r.extra("plain_wall_s", json!((r.elapsed() * 10.0).round() / 10.0));
+
+    // part 2 (largest tasks first in the pool, results merged in enumeration order)
+    let ctasks = if only == "plain" { vec![] } else { comp_tasks(thorough, r.seed) };
+    let mut order: Vec<usize> = (0..ctasks.len()).collect();
+    order.sort_by_key(|i| {
+        let t = &ctasks[*i];
+        std::cmp::Reverse((t.ta.len() * t.tb.len()) as u64 / t.chunk.1 * if t.jt == JoinType::Full { 2 } else { 1 })
+    });
+    let mut res: Vec<(usize, Out)> = order
+        .par_iter()
+        .map(|i| (*i, run_comp_task(&ctasks[*i], *i % 41 == 7)))
+        .collect();
+    res.sort_by_key(|x| x.0);
+    merge(r, res.into_iter().map(|x| x.1).collect());
+
+    let mut nonvac: Vec<&str> = vec![
+        "evaluations",
+        "plain_unmasked_evaluations",
+        "plain_masked_evaluations",
+        "cases_with_matching_rows",
+        "cases_with_masked_key_entry",
+        "result_types_checked",
+        "compilations",
+        "compiled_three_party_ok",
+        "compiled_ok_with_nonempty_result",
+    ];
+    nonvac.push("compiled_global_ok");
+    r.finish(
+        "exploration",
+        "plaintext: per schema (6: one/two key columns of u8, i32[2], bit[2]; equal/differing/crossed header names; null column first or last) \
+         x join type (4): all pairs of tables with 1..=3 rows (quick: not 3x3), row in {null+zero data, null+junk data, live with one of 4 keys}, \
+         live keys unique; masked variant: 1..=2 rows, every key-mask pattern x payload mask (quick: 2x2 tables with payload mask one); \
+         compiled (one compilation per join type x owner configuration x table sizes, then all table pairs over a reduced row alphabet): \
+         thorough A: schema k2-diff, 6 owner configurations, sizes {1,2}^2, rows {null0,nullJ,k0,k1} (2x2: without null0); B: masked, 3 owner \
+         configurations, sizes 1x1 and 2x1, every key-mask pattern; C: u8 key, 2 owner configurations, 2x2; D: 2-bit key, 2 owner configurations, 2x2; \
+         each pair in global mode and three-party mode with junk zeros and junk ones. quick: k2-diff with one size per owner configuration and \
+         the 2-bit key 2x2 (Inner), three-party with junk alternating by pair index, global for Union/Full. \
+         distinct = cases where both tables have a live row",
+        true,
+        &[
+            "tables have at least one row (the builder rejects zero-sized arrays); an empty table is a table of null rows",
+            "entries whose column mask is zero are expected as mask 0 / data 0 in the result ('filled with zeros where no data can be retrieved')",
+            "compiled part uses InlineMode::Simple; shares of Shared inputs and PRNG seeds are derived from the seed, not enumerated",
+            "three-party semantics of the harness executor: values cross parties only at Send-annotated nodes",
+        ],
+        &nonvac,
+    )
+}
+
+// ---------------------------------------------------------------------------------------------
+// replay
+// ---------------------------------------------------------------------------------------------
+
+pub fn replay(_r: &Report, rec: &J) -> i32 {
+    let case = &rec["case"];
+    let s = schema_by_id(case["schema"].as_str().unwrap_or(""));
+    let jt = jt_of(case["join"].as_str().unwrap_or(""));
+    let masked = case["masked"].as_bool().unwrap_or(false);
+    let ra = rowd_parse(&case["a"]);
+    let rb = rowd_parse(&case["b"]);
+    let a = materialize(&s, false, &ra, masked);
+    let b = materialize(&s, true, &rb, masked);
+    let expected = ref_join(&a, &b, jt, &s.keys);
+    println!("join={} schema={} masked={}", jt_name(jt), s.id, masked);
+    println!("a        = {}", a.show());
+    println!("b        = {}", b.show());
+    println!("expected = {}", expected.show());
+    match case["part"].as_str().unwrap_or("") {
+        "plain" => {
+            let ctx = match build_ctx(&a.ty(), &b.ty(), &s, jt, masked, false) {
+                Ok(c) => c,
+                Err(m) => {
+                    println!("observed: graph cannot be built: {}", m);
+                    return 1;
+                }
+            };
+            let out_t = mpcx::output_type(&ctx);
+            if out_t != expected.ty() {
+                println!("observed: result type {} instead of {}", out_t, expected.ty());
+                return 1;
+            }
+            let mut ev = new_eval(1);
+            if let Err(e) = ev.preprocess(&ctx) {
+                println!("observed: preprocess fails: {}", e);
+                return 1;
+            }
+            match check_plain_one(&mut ev, &ctx, &a, &b, &expected, &out_t) {
+                Ok(()) => {
+                    println!("observed: equal to expected - does not reproduce");
+                    0
+                }
+                Err((_, m)) => {
+                    println!("observed: {}", m);
+                    1
+                }
+            }
+        }
+        "compiled" => {
+            let oc = owner_cfgs().into_iter().find(|o| Some(o.name) == case["owners"].as_str()).expect("owner cfg");
+            let c = match compile_for(&s, jt, masked, ra.len(), rb.len(), &oc) {
+                Ok(c) => c,
+                Err(m) => {
+                    println!("observed: compilation fails: {}", m);
+                    return 1;
+                }
+            };
+            let mode = case["mode"].as_str().unwrap_or("three");
+            if mode == "compile" {
+                println!("observed: compiles now - does not reproduce");
+                return 0;
+            }
+            if mode == "plain" {
+                let mut ev = new_eval(1);
+                let _ = ev.preprocess(&c.plain_ctx);
+                let pc = c.plain_ctx.clone();
+                let pin = plain_inputs(&a, &b, oc.split_a);
+                return match catch(|| ev.evaluate_context(pc, pin)) {
+                    Ok(Ok(v)) if v == expected.value() => {
+                        println!("observed: equal to expected - does not reproduce");
+                        0
+                    }
+                    Ok(Ok(v)) => {
+                        println!("observed: {}", vals::show(&v, &c.out_t));
+                        1
+                    }
+                    other => {
+                        println!("observed: {:?}", other.map(|x| x.map(|_| ()).map_err(|e| e.to_string())));
+                        1
+                    }
+                };
+            }
+            let junk = case["junk"].as_u64().unwrap_or(0) as u8;
+            let case_seed: u64 = case["case_seed"].as_str().and_then(|x| x.parse().ok()).unwrap_or(0);
+            println!("owners={} output party={} mode={} junk={:#04x}", oc.name, oc.out, mode, junk);
+            match run_compiled_one(&c, &oc, &a, &b, &expected.value(), mode, junk, case_seed) {
+                Verdict::Ok => {
+                    println!("observed: equal to expected - does not reproduce");
+                    0
+                }
+                Verdict::AllowedAbort => {
+                    println!("observed: cuckoo hashing failure (allowed abort) - does not reproduce");
+                    0
+                }
+                Verdict::Bad(_, m) => {
+                    println!("observed: {}", m);
+                    1
+                }
+            }
+        }
+        other => {
+            println!("MACHINERY-ERROR property=C19 unknown part '{}' in replay record", other);
+            2
+        }
+    }
 }
